@@ -128,6 +128,10 @@ func genC15(r *rand.Rand, tier string, env *Env) []Case {
 		if len(ct.incl) > 0 {
 			cmds = append(cmds, []string{"regex", "format", ct.incl[0]})
 		}
+		// targets that do not exist: nothing may be created for them
+		cmds = append(cmds, []string{"regex", "format", "-c", "999999"}, []string{"regex", "format", "999999"}, []string{"regex", "format", "-c", "nosuchinclude"},
+			[]string{"regex", "generate", "999999"}, []string{"regex", "update", "999999"}, []string{"regex", "compare", "999999"},
+			[]string{"util", "renumber-tests", "-c", "999999"}, []string{"util", "renumber-tests", "999999"})
 		for _, c := range cmds {
 			mode := pick(r, []string{"cwd", "cwd", "d-root", "d-sub", "d-rel"})
 			kind := regexp.MustCompile(`\d{6}(-chain\d+)?|words\d+`).ReplaceAllString(strings.Join(c, " "), "TARGET")
@@ -161,7 +165,8 @@ type fault struct {
 
 // path of the assembly file that carries the fault when it is not the chosen file itself
 var faultyPathOf = map[string]func(ra raFile) string{
-	"chain-offset-not-found": func(ra raFile) string { return "regex-assembly/" + ra.id + "-chain9.ra" },
+	"stored-name-of-another-file": func(ra raFile) string { return "LAST" },
+	"chain-offset-not-found":      func(ra raFile) string { return "regex-assembly/" + ra.id + "-chain9.ra" },
 }
 
 func faultList() []fault {
@@ -196,6 +201,14 @@ func faultList() []fault {
 		}},
 		{"missing-end", setRa(func(s string) string { return s + "##!> assemble\nq\n" }), genCmds},
 		{"unknown-stored-name", setRa(func(s string) string { return s + "##!=> neverstored\n" }), genCmds},
+		{"stored-name-of-another-file", func(ct *crsTree, ra raFile) {
+			// the name is stored by the first file of the walk and recalled, without being stored, by the last one
+			ras := append([]raFile{}, ct.ra...)
+			sort.Slice(ras, func(i, j int) bool { return ras[i].path < ras[j].path })
+			first, last := ras[0], ras[len(ras)-1]
+			ct.t[first.path] = append(ct.t[first.path], []byte("zz\n##!=< othersname\n##!=> othersname\n")...)
+			ct.t[last.path] = append(ct.t[last.path], []byte("##!=> othersname\n")...)
+		}, func(ra raFile) [][]string { return [][]string{{"regex", "update", "-a"}, {"regex", "compare", "-a"}} }},
 		{"store-without-name", setRa(func(s string) string { return s + "q\n##!=<\n" }), genCmds},
 		{"unsupported-flag", setRa(func(s string) string { return "##!+ x\n" + s }), func(ra raFile) [][]string {
 			return append(genCmds(ra), []string{"regex", "format", ra.arg})
@@ -343,6 +356,16 @@ func genC16(r *rand.Rand, tier string, env *Env) []Case {
 			faultyPath := ra.path
 			if fp, found := faultyPathOf[f.name]; found {
 				faultyPath = fp(ra)
+				if faultyPath == "LAST" {
+					wo := walkOrder(ct.t)
+					var top []string
+					for _, w := range wo {
+						if !strings.Contains(w[len("regex-assembly/"):], "/") {
+							top = append(top, w)
+						}
+					}
+					faultyPath = top[len(top)-1]
+				}
 			}
 			for _, c := range f.cmds(ra) {
 				cases = append(cases, Case{Kind: "fault:" + f.name, Ops: cliCmdOps(ct, c),
@@ -441,6 +464,14 @@ func addLeakScenario(r *rand.Rand, ct *crsTree, kind int) {
 		ct.t[early.path] = append([]byte("##!+ is\n##!^ pre\n##!$ suf\n"), ct.t[early.path]...)
 	case 3: // the last file leaves a block open (fails alone and in --all)
 		ct.t[last.path] = append(ct.t[last.path], []byte("##!> assemble\nopen\n")...)
+	case 4: // what an include or exclusion file expands to depends on who includes it: nothing may be remembered per path
+		ct.t["regex-assembly/include/leak-a.ra"] = []byte("##!> define kw select\n{{kw}}ion\n{{kw}}or\nunion\n")
+		ct.t["regex-assembly/include/leak-b.ra"] = []byte("##!> define kw insert\n{{kw}}ion\n{{kw}}or\nunion\n")
+		ct.t["regex-assembly/include/leak-x.ra"] = []byte("{{kw}}or\n")
+		ct.t["regex-assembly/include/leak-w.ra"] = []byte("w1@\nw2\n")
+		ct.t[early.path] = append(ct.t[early.path], []byte("##!> include-except leak-a leak-x\n##!> include leak-w -- @ x\n")...)
+		ct.t[last.path] = append(ct.t[last.path], []byte("##!> include-except leak-b leak-x\n##!> include leak-w\n")...)
+		ct.incl = append(ct.incl, "leak-a", "leak-b", "leak-x", "leak-w")
 	}
 }
 
@@ -457,7 +488,7 @@ func genC08(r *rand.Rand, tier string, env *Env) []Case {
 		}
 		ct := genCRSTree(r, nRa)
 		if i%2 == 1 {
-			addLeakScenario(r, ct, (i/2)%4)
+			addLeakScenario(r, ct, (i/2)%5)
 		}
 		for _, cmd := range []string{"update", "format", "compare"} {
 			var args []string
@@ -483,7 +514,7 @@ func genC08(r *rand.Rand, tier string, env *Env) []Case {
 	for i := 0; i < nt; i++ {
 		ct := genCRSTree(r, 2+r.Intn(4))
 		if i%2 == 1 {
-			addLeakScenario(r, ct, (i/2)%4)
+			addLeakScenario(r, ct, (i/2)%5)
 		}
 		files := treeArgs(ct.t)
 		ops := cliCmdOps(ct, []string{"regex", "update", "-a"})
@@ -535,9 +566,17 @@ func oracleC18Root(p *Pair, env *Env, a [][]byte) *Failure {
 	_ = t.write(sb)
 	_ = os.MkdirAll(filepath.Join(sb, start), 0o755)
 	// absolute -d, relative -d from the sandbox, and no -d with that working directory
-	for _, mode := range []string{"abs", "rel", "cwd"} {
+	for _, mode := range []string{"abs", "rel", "cwd", "abs-slash", "abs-dotdot", "rel-slash"} {
 		var c cliResult
 		switch mode {
+		case "abs-slash":
+			c = runCLI(env, sb, nil, "-l", "disabled", "-d", filepath.Join(sb, start)+"/", "regex", "generate", "942100")
+		case "abs-dotdot":
+			// <start>/zzsub/.. names <start> itself
+			_ = os.MkdirAll(filepath.Join(sb, start, "zzsub"), 0o755)
+			c = runCLI(env, sb, nil, "-l", "disabled", "-d", filepath.Join(sb, start)+"/zzsub/..", "regex", "generate", "942100")
+		case "rel-slash":
+			c = runCLI(env, sb, nil, "-l", "disabled", "-d", "./"+start+"/", "regex", "generate", "942100")
 		case "abs":
 			c = runCLI(env, sb, nil, "-l", "disabled", "-d", filepath.Join(sb, start), "regex", "generate", "942100")
 		case "rel":
@@ -673,7 +712,7 @@ func oracleC17(p *Pair, env *Env, a [][]byte) *Failure {
 	}
 	empty := [][]byte{{}, {}, {}, {}, {}, {}}
 	switch site {
-	case "generate", "generate-include", "generate-replace-suffixes", "generate-include-except", "generate-exclude-file":
+	case "generate", "generate-include", "generate-include-prefixed", "generate-include-suffixed", "generate-nested-include", "generate-replace-suffixes", "generate-include-except", "generate-exclude-file":
 		// the entries `zzq1` and `zzq2` must both be alternatives of the result
 		var args [][]byte
 		switch site {
@@ -681,6 +720,13 @@ func oracleC17(p *Pair, env *Env, a [][]byte) *Failure {
 			args = append(append([][]byte{}, empty...), join(place([]string{"zzq1", "zzq2"}, long)))
 		case "generate-include":
 			args = append(append([][]byte{}, empty...), []byte("##!> include big\n"), []byte("i"), []byte("big.ra"), join(place([]string{"zzq1", "zzq2"}, long)))
+		case "generate-include-prefixed":
+			// a file with its own prefix is re-written as a local block by the parser
+			args = append(append([][]byte{}, empty...), []byte("##!> include big\n"), []byte("i"), []byte("big.ra"), append([]byte("##!^ pp\n"), join(place([]string{"zzq1", "zzq2"}, long))...))
+		case "generate-include-suffixed":
+			args = append(append([][]byte{}, empty...), []byte("##!> include big\n"), []byte("i"), []byte("big.ra"), append([]byte("##!$ ss\n"), join(place([]string{"zzq1", "zzq2"}, long))...))
+		case "generate-nested-include":
+			args = append(append([][]byte{}, empty...), []byte("##!> include outer\n"), []byte("i"), []byte("outer.ra"), []byte("##!> include big\n"), []byte("i"), []byte("big.ra"), join(place([]string{"zzq1", "zzq2"}, long)))
 		case "generate-replace-suffixes":
 			args = append(append([][]byte{}, empty...), []byte("##!> include big -- @ x\n"), []byte("i"), []byte("big.ra"), join(place([]string{"zzq1", "zzq2"}, long)))
 		case "generate-include-except":
@@ -721,8 +767,15 @@ func oracleC17(p *Pair, env *Env, a [][]byte) *Failure {
 		if err != nil {
 			return fail("output does not compile", err.Error())
 		}
+		pre, suf := "", ""
+		switch site {
+		case "generate-include-prefixed":
+			pre = "pp"
+		case "generate-include-suffixed":
+			suf = "ss"
+		}
 		for _, w := range []string{"zzq1", "zzq2"} {
-			if !re.MatchString(w) {
+			if !re.MatchString(pre + w + suf) {
 				return fail("entry "+w+" is missing from the generated alternation", fmt.Sprintf("output of %d bytes", len(g.Out[0])))
 			}
 		}
@@ -732,7 +785,7 @@ func oracleC17(p *Pair, env *Env, a [][]byte) *Failure {
 					return fail("excluded entry "+w+" survived", "")
 				}
 			}
-		} else if !re.MatchString(long) {
+		} else if !re.MatchString(pre + long + suf) {
 			return fail("the long entry itself is missing", "")
 		}
 	case "format":
@@ -778,7 +831,7 @@ func genC17(r *rand.Rand, tier string, env *Env) []Case {
 		lengths = []int{1, 4095, 4096, 65534, 65535, 65536, 65537, 65538, 100000, 131072, 131073, 262143, 262144, 262145, 300000, 524288, 1048576, 1048577, 4194305}
 	}
 	var cases []Case
-	sites := []string{"generate", "generate-include", "generate-replace-suffixes", "generate-include-except", "generate-exclude-file", "format", "renumber", "copyright"}
+	sites := []string{"generate", "generate-include", "generate-include-prefixed", "generate-include-suffixed", "generate-nested-include", "generate-replace-suffixes", "generate-include-except", "generate-exclude-file", "format", "renumber", "copyright"}
 	for _, site := range sites {
 		for _, n := range lengths {
 			if site == "generate" && n > 140000 {
